@@ -21,7 +21,11 @@ def pat_names(names):
     return pn
 
 
-NO_CONSTS = {"MhlEnv", "MhlCommitTrace", "MhlXmlTrace", "MhlTimeTrace", "MhlHasherTrace", "MhlUpdaterTrace"}
+SPEC_NAME = {"MhlTamperTrace": "TSpec", "MhlCommitTrace": "TSpec", "MhlUpdaterTrace": "TSpec", "MhlHasherTrace": "TSpec"}
+# MhlCommitTrace extends MhlCommit, whose constants are irrelevant for trace validation (every line carries its own)
+EXTRA_CFG = {"MhlTamperTrace": "CONSTANTS\n Order <- c_Order\n NGens <- c_NGens\n MaxFaults = 2\n", "MhlCommitTrace": "CONSTANTS\n Hist <- c_Hist\n Prior <- c_Prior\n W = 1\n Atomic = TRUE\n"}
+EXTRA_DEFS = {"MhlTamperTrace": 'c_Order == << <<>>, <<"d">>, <<"d", "e">>, <<"d2">> >>\nc_NGens == (<<>> :> 2 @@ <<"d">> :> 3 @@ <<"d", "e">> :> 4 @@ <<"d2">> :> 3)\n', "MhlCommitTrace": 'c_Hist == <<"r">>\nc_Prior == ("r" :> 0)\n'}
+NO_CONSTS = {"MhlEnv", "MhlTamperTrace", "MhlCommitTrace", "MhlXmlTrace", "MhlTimeTrace", "MhlHasherTrace", "MhlUpdaterTrace"}
 
 
 def write_trace_module(wd, modname, trace_module, names, extra_defs=""):
@@ -31,13 +35,14 @@ def write_trace_module(wd, modname, trace_module, names, extra_defs=""):
         if trace_module not in NO_CONSTS:
             fh.write("c_Fmts == %s\n" % tlc.tla(tuple(FMTS)))
             fh.write("c_PatNames == %s\n" % tlc.tla(tlc.Fn({k: set(v) for k, v in sorted(pn.items())})))
-        fh.write(extra_defs)
+        fh.write(extra_defs or EXTRA_DEFS.get(trace_module, ""))
         fh.write("====\n")
     with open(os.path.join(wd, modname + ".cfg"), "w") as fh:
         if trace_module not in NO_CONSTS:
             fh.write("SPECIFICATION Spec\nCONSTANTS\n Fmts <- c_Fmts\n PatNames <- c_PatNames\n")
         else:
-            fh.write("SPECIFICATION Spec\n")
+            fh.write("SPECIFICATION %s\n" % SPEC_NAME.get(trace_module, "Spec"))
+            fh.write(EXTRA_CFG.get(trace_module, ""))
 
 
 def _run_shard(args):
